@@ -1272,20 +1272,15 @@ func zzCheckViews(e *zzEnvK, name string) {
 	if err != nil {
 		return
 	}
-	byDir := map[string]bool{}
 	for _, infos := range res {
 		for _, in := range infos {
-			byDir[in.SpaceID] = true
 			if !flat[in.SpaceID] {
 				r.Fail("C15/deselected-space-still-in-use/"+name, "space %s is not part of the selection this call returned, but the by-directory listing still shows it", in.SpaceID[:8])
 			}
 		}
 	}
-	for sid := range flat {
-		if !byDir[sid] {
-			r.Fail("C15/selected-space-not-listed-by-dir/"+name, "selected space %s is missing from the by-directory listing", sid[:8])
-		}
-	}
+	// (a selected space whose directory is no longer among the keeper's directories is not listed
+	// by directory: the listing covers the current directories only, nothing in C15 forbids that)
 	for sid, ws := range sk.workSpaceIndex[allState].Items() {
 		if ws.using != flat[sid] {
 			r.Fail("C15/deselected-space-still-in-use/"+name, "space %s: selected=%v but in-use flag=%v", sid[:8], flat[sid], ws.using)
